@@ -356,7 +356,9 @@ Proof.
     apply F; [|reflexivity]. unfold wf, chunk. cbn. rewrite firstn_length, skipn_length. unfold len in Lm. nia. }
   destruct results as [|first rest_results] eqn:Eres; [cbn in Lres; lia|]. rewrite <- Eres in *.
   assert (len first = m) as Lf by (apply Um; rewrite Eres; now left).
-  rewrite flat_arr_ok. cbn [bind]. rewrite Lf.
+  assert (forallb (fun r : arr U => len r =? len first) results = true) as ->
+    by (apply forallb_forall; intros x Hx; unfold len at 1; rewrite (Um x Hx), Lf; apply Nat.eqb_refl).
+  cbn [negb]. rewrite flat_arr_ok. cbn [bind]. rewrite Lf.
   assert (upd (shape mv) (ndim a - 1) m = rs ++ [m]) as ->.
   { rewrite Sm. rewrite <- Lrs. clear. induction rs as [|h t IH]; cbn; [reflexivity | now rewrite IH]. }
   pose proof (length_flat_map_uniform (@elems U) results m Um) as Lfm.
